@@ -58,6 +58,7 @@ fn main() {
         "transport-run" => framing::run_transport(rest),
         "md5" => md5::run_selftest(rest),
         "hs-edges" => handshake::run_edges(rest),
+        "hs-paths" => handshake::run_paths(rest),
         "hs-wire" => handshake::run_wire(rest),
         "pid-run" => pid::run(rest),
         "rpc-run" => rpc::run(rest),
